@@ -195,3 +195,38 @@ class _InPlace(_LocalRenamer):
 
     def __init__(self, mapping, params):
         super().__init__(mapping, params)
+
+
+class _StripAnn(ast.NodeTransformer):
+    """`x: T = v` inside a function body is `x = v` for every rule (class bodies -- dataclass fields --
+    and module level keep their annotations)."""
+
+    def __init__(self):
+        self.depth = 0
+        self.n = 0
+
+    def visit_FunctionDef(self, node):
+        self.depth += 1
+        self.generic_visit(node)
+        self.depth -= 1
+        return node
+
+    visit_AsyncFunctionDef = visit_FunctionDef
+
+    def visit_ClassDef(self, node):
+        d, self.depth = self.depth, 0
+        self.generic_visit(node)
+        self.depth = d
+        return node
+
+    def visit_AnnAssign(self, node):
+        if self.depth and node.value is not None and isinstance(node.target, (ast.Name, ast.Attribute, ast.Subscript)):
+            self.n += 1
+            return ast.copy_location(ast.Assign(targets=[node.target], value=node.value, type_comment=None), node)
+        return node
+
+
+def strip_local_annotations(tree) -> int:
+    t = _StripAnn()
+    t.visit(tree)
+    return t.n
